@@ -160,7 +160,7 @@ _PROCESS_DEPENDENT = [
 ]
 
 
-SPECIAL_BLOCKS = ("doc", "spell", "deep", "settle", "loader", "overused", "boolexpr", "decofirst", "twostep")
+SPECIAL_BLOCKS = ("doc", "spell", "deep", "settle", "loader", "overused", "boolexpr", "decofirst", "twostep", "renames")
 
 
 def gen_module(rng: random.Random, process_dependent: bool = False, special: bool = False, force: Optional[str] = None) -> str:
@@ -185,14 +185,38 @@ def gen_module(rng: random.Random, process_dependent: bool = False, special: boo
             f'logger.{fn}("saw {esc} and {{}} and {{}}".format(x, y))',
         ]
         n = rng.randint(1, 3)
-        body = "".join(f"    {rng.choice(forms)}\n" for _ in range(n))
-        text = "import logging\n\nlogger = logging.getLogger(__name__)\n\n\ndef report(x, y):\n" + body + "    return x\n\n\nprint(report(1, 2))\n"
+        picked = [forms[0]] + [rng.choice(forms) for _ in range(n - 1)]
+        rng.shuffle(picked)
+        body = "".join(f"    {f_}\n" for f_ in picked)
+        if rng.random() < 0.5:
+            # the plain shape: one call, nothing else for other rules to do
+            body = f"    {forms[0]}\n"
+            text = "import logging\n\n\ndef _report(x):\n" + body + "    return x\n\n\nprint(_report(3))\n"
+        else:
+            text = "import logging\n\nlogger = logging.getLogger(__name__)\n\n\ndef report(x, y):\n" + body + "    return x\n\n\nprint(report(1, 2))\n"
         import warnings
 
         try:
             with warnings.catch_warnings():
                 warnings.simplefilter("ignore")
                 ast.parse(text)
+            return text
+        except (SyntaxError, ValueError):
+            pass
+    if force == "renames" or (force is None and special and rng.random() < 0.06):
+        # many definitions that all want a new name and mention each other: every renaming is one
+        # transaction over the definition and all its references, so the transactions overlap pairwise
+        n = rng.randint(6, 9)
+        style = rng.choice(["camel", "camel", "Upper"])
+        names = [(f"computeValue{chr(65 + i)}" if style == "camel" else f"Compute_Value_{chr(65 + i)}") for i in range(n)]
+        chunks = []
+        for i, nm in enumerate(names):
+            used = names[:i] if rng.random() < 0.7 else rng.sample(names[:i], min(len(names[:i]), 2))
+            expr = " + ".join([f"{u}(x)" for u in used] + [str(i + 1)])
+            chunks.append(f"def {nm}(x):\n    return {expr}\n")
+        text = "\n\n".join(chunks) + f"\n\nprint({names[-1]}(1))\n"
+        try:
+            ast.parse(text)
             return text
         except (SyntaxError, ValueError):
             pass
